@@ -22,12 +22,12 @@ type Client struct {
 	nextID uint32
 	Err    error // handler return value (valid once Conn.Done is closed)
 
-	mu      sync.Mutex
-	parsed  int // bytes of Conn output already re-framed
-	inbox   []refcodec.Tran
-	drained int
+	mu       sync.Mutex
+	parsed   int // bytes of Conn output already re-framed
+	inbox    []refcodec.Tran
+	drained  int
 	FrameErr error // first re-framing error of this client's stream
-	HsReply []byte
+	HsReply  []byte
 }
 
 // Connect starts the real handleNewConnection on a fresh in-memory connection.
